@@ -176,6 +176,10 @@ def check_request(ctx, seed, k):
     if seed % 11 == 10:
         fault = 0.25      # the split-defer family exists for fragments that fail while a sibling unit of work is running
     value_fn = make_value(schema, seed, fault)
+    if seed % 11 == 6 and seed % 2:
+        # stream templates: every other request has list sources that raise after some items (stop kind "source raise")
+        value_fn = make_value(schema, seed, 0.3, kinds=('iter_raise', 'null'))
+        ctx.count("requests_with_failing_list_sources")
     base_case = {"seed": seed, "source": src, "variables": variables, "fault_rate": fault}
     states = set()
     for early in (False, True):
@@ -186,6 +190,10 @@ def check_request(ctx, seed, k):
             policy = 'slow-consumer'       # producers run ahead of the consumer: stops meet results nobody has scheduled yet
         # the unstopped run tells how many payloads there are (and is itself a resolver/source-failure run)
         obs = one(ctx, schema, doc, src, variables, value_fn, s0, p_async, policy, early, None, rng.random() < 0.3, base_case)
+        if seed % 11 == 6 and seed % 2:
+            # stop kind "source raise": more schedules of the unstopped run, the consumer must be released in each
+            for j, pol in enumerate(('burst', 'slow-consumer', 'random', 'phases')):
+                one(ctx, schema, doc, src, variables, value_fn, s0 + 100 + j, [1.0, 0.7][j % 2], pol, early, None, False, base_case)
         if obs is None or obs.kind != 'incremental':
             if obs is not None and obs.kind == 'single' and rng.random() < 0.5:
                 one(ctx, schema, doc, src, variables, value_fn, s0, p_async, policy, early, ('abort', Reason('stop')), True, base_case)
